@@ -19,6 +19,17 @@ CHECKS = {
              '(C01) nor exactness of the conflict *set* beyond per-cell bookkeeping. Trusted: ' + TB,
         technique='MIR path-table extraction (custom rustc_private driver) + finite-model comparison with the specification table',
         ref='§4 C03'),
+    'C10': dict(
+        level='other',
+        text='One structural clause only: "numbered densely from zero, every index the API returns is in range". Fields of the '
+             'grammar object that an accessor indexes with a PIdx/TIdx/RIdx are found from the accessors\' MIR; in the constructor '
+             'every vector flowing into such a field must end with the length of its class leader (the vector whose len() '
+             'becomes prods_len/tokens_len/rules_len): same initial length and pushes in the same straight-line regions, or '
+             'a snapshot of / one push per element of the completed leader.',
+        note='The round-trip clauses of C10 (rules, symbols, precedences, %epp, actions and spans are the ones written in the '
+             'source, whatever the layout) are NOT decided: no structural fact implies them. Trusted: ' + TB,
+        technique='lock-step growth analysis of parallel tables over MIR (accessor-derived index classes, per-region push counting, def-use)',
+        ref='§4 C10'),
     'C11': dict(
         level='other',
         text='(1) Every call handing source text to a span-producing specification parser passes the caller\'s whole text '
